@@ -529,7 +529,7 @@ def _union(t: Uni, d, ctx, cons):
     first = None
     found = False
     others = []
-    for a in t.alts:
+    for a in flat_alts(t):
         ra = resolve(a, ctx)
         if isinstance(ra, Prim) and ra.kind == "undefined":
             continue
